@@ -248,7 +248,7 @@ CLAIMS = {
                  "between single or double quotes (blanks, commas, brackets, operators, keywords, the other quote) becomes the text of one String "
                  "token in every lexer context, by induction over the text against the well-founded scanning loop; expression_test_case_insensitive — the lexer's looks_like_expression test on a pending token (SIZE*2 vs size*2) does not depend on letter case; the other context flags of "
                  "the lexer are covered by the model correspondence only. D63 fixed (root option `regexp`/any-case `RX`). boolean_without_brackets — a boolean function "
-                 "written without brackets is the call without arguments and leaves the next token alone (D84 fixed). documented_names_pass_expression_test — every documented column and function spelling passes the lexer's expression test (decided over the regenerated doc tables; false before D82). D81 fixed (a comma between ORDER BY / GROUP BY "
+                 "written without brackets is the call without arguments and leaves the next token alone (D84 fixed). comma_announces_root_only_in_root_list — by functional induction over next_lexem: a comma leaves possible_search_root set only after FROM with neither WHERE nor BY seen, so the commas of the select list, of conditions and of GROUP BY / ORDER BY never make the next shell word a path (D81 fixed). documented_names_pass_expression_test — every documented column and function spelling passes the lexer's expression test (decided over the regenerated doc tables; false before D82). D81 fixed (a comma between ORDER BY / GROUP BY "
                  "terms no longer announces a root path: the list half of D01), D82 fixed (names with an underscore before an arithmetic sign), D83 fixed (rx / regexp "
                  "directly after the path); for forms taken from the documentation tables the check also demands that the canonical spelling parses."),
         "ref": "DESIGN.md §4 C11",
